@@ -4,8 +4,8 @@ from .. import env, coq, runner
 
 LEVEL = 'proof'
 META = dict(
-    text='Coq theorems (unbounded): bit packing round-trips for every number of repetitions with zero padding and little-endian-in-byte order; the constants-table interning scheme of the circuit serializer round-trips every circuit over abstract leaves with decidable equality, shares an index exactly between equal items and only refers backwards; result messages (keys x instances x qubits x packed repetitions) round-trip; the qubit id codec (qubit_to_proto_id / qubit_from_proto_id: decimal printing, split on underscores, the grid pattern, int()) reads back every grid, line, named and coupler qubit of the documented vocabulary for all signed coordinates, ids of the vocabulary never collide, and the unrestricted statement is refuted (a named qubit called 3). The Gallina models are hand-written in the shape of the code and evaluated with vm_compute against the implementation on every run, together with direct round-trip oracles on the real serializers for circuits, sweeps, run contexts, results and device specifications.',
-    note='Trusted: Coq kernel; protobuf and numpy; the Python adapters in vf/checks/c16.py (calling cirq_google, assigning leaf identifiers by Python equality, printing Gallina literals); the leaf codecs (gate arguments, tags, conditions) are compared on generated cases, not proved; the qubit id model covers ASCII ids only; sweep values that carry units (tunits) are judged as physical quantities up to one single-precision rounding of the stored magnitude (2^-22 relative, 1e-12 with use_float64). Theorems are closed under the global context.',
+    text='Coq theorems (unbounded): bit packing round-trips for every number of repetitions with zero padding and little-endian-in-byte order; the constants-table interning scheme of the circuit serializer round-trips every circuit over abstract leaves with decidable equality, shares an index exactly between equal items and only refers backwards; result messages (keys x instances x qubits x packed repetitions) round-trip; the qubit id codec (qubit_to_proto_id / qubit_from_proto_id: decimal printing, split on underscores, the grid pattern, int()) reads back every grid, line, named and coupler qubit of the documented vocabulary for all signed coordinates, ids of the vocabulary never collide, and the unrestricted statement is refuted (a named qubit called 3); the device read from a DeviceSpecification holds a coupling exactly where a SYMMETRIC target set lists the two ids in either order (target sets of any other ordering and targets of any other size add nothing), its validate_operation accepts a two-qubit gate exactly on those couplings and measurement / wait on any device qubits, and to_proto writes a specification of the same qubits and couplings that reads back as the same device. The Gallina models are hand-written in the shape of the code and evaluated with vm_compute against the implementation on every run, together with direct round-trip oracles on the real serializers for circuits, sweeps, run contexts, results and device specifications.',
+    note='Trusted: Coq kernel; protobuf and numpy; the Python adapters in vf/checks/c16.py (calling cirq_google, assigning leaf identifiers by Python equality, printing Gallina literals); the leaf codecs (gate arguments, tags, conditions) are compared on generated cases, not proved; the qubit id model covers ASCII ids only; the device model covers qubits, target sets and couplings (gates, durations and qubit attributes of a specification are judged by the Python oracle against device.proto); sweep values that carry units (tunits) are judged as physical quantities up to one single-precision rounding of the stored magnitude (2^-22 relative, 1e-12 with use_float64). Theorems are closed under the global context.',
     technique='Rocq/Coq proof over executable Gallina models of pack_bits, the constants table and result messages + vm_compute correspondence and round-trip oracles against cirq_google',
 )
 
@@ -947,7 +947,40 @@ def circuits_stream(ctx, cirq, cg, n, shard=0):
     vals = coq.parse_evals(coq.coq_eval(f'c16_circuits_{ctx.seed}_{shard}', text))
     for idx in coq.parse_nat_list(vals[0]):
         term, sk, top, c = rows[idx]
-        ctx.mark_broken('correspondence:constants_table', f'constants table differs from the interning model for {c!r}; table skeleton {sk} top {top}'[:3000])
+        detail = f'constants table differs from the interning model for {c!r}; table skeleton {sk} top {top}'[:3000]
+        twins = symmetric_order_moments(cirq, c)
+        if twins:
+            # equal operations, unequal moments: the recorded defect of Moment equality; the model (moments = lists of operations
+            # with a decidable equality) has one constant where the implementation has two
+            ctx.disagree('correspondence:constants_table', detail, 'circuit:symmetric-gate-qubit-order',
+                         f'the moments {twins[0]!r} and {twins[1]!r} hold equal operations but are not equal as moments (operations are sorted by their qubits as written), '
+                         f'so the program keeps two moment constants for them', dict(kind='circuit', literal=circuit_literal(c)))
+        else:
+            ctx.mark_broken('correspondence:constants_table', detail)
+
+
+def all_moments(cirq, c):
+    for m in c.moments:
+        yield m
+        for o in m.operations:
+            u = o.untagged
+            inner = u.without_classical_controls() if isinstance(u, cirq.ClassicallyControlledOperation) else u
+            if isinstance(inner, cirq.CircuitOperation):
+                yield from all_moments(cirq, inner.circuit)
+
+
+def symmetric_order_moments(cirq, c):
+    """Two moments of c (at any depth) with the same tags and pairwise equal operations that Moment equality tells apart."""
+    ms = list(all_moments(cirq, c))
+    for i, a in enumerate(ms):
+        for b in ms[i + 1:]:
+            if a != b and tuple(a.tags) == tuple(b.tags) and len(a.operations) == len(b.operations):
+                try:
+                    if set(a.operations) == set(b.operations):
+                        return a, b
+                except TypeError:
+                    pass
+    return None
 
 
 def qid_lit(cirq, cg, q):
@@ -1509,10 +1542,8 @@ GATE_NAMES = ['syc', 'sqrt_iswap', 'sqrt_iswap_inv', 'cz', 'cz_pow_gate', 'phase
               'fsim_via_model', 'two_pulse_fsim', 'internal_gate', 'reset']
 
 
-def spec_accepts(cirq, cg, proto, op):
-    """Accept/reject decision read off the DeviceSpecification alone (written from the documentation of the fields)."""
-    from cirq_google.api import v2
-    names = {g.WhichOneof('gate') for g in proto.valid_gates}
+def spec_gate_ok(cirq, cg, names, op):
+    """Is the gate of op (with its tags) one of the gates that the GateSpecification names stand for (device.proto)."""
     gate, tags = op.gate, set(type(t).__name__ for t in op.tags)
 
     def same(target):
@@ -1550,7 +1581,14 @@ def spec_accepts(cirq, cg, proto, op):
             ok |= isinstance(gate, cg.InternalGate)
         elif nme == 'reset':
             ok |= isinstance(gate, cirq.ResetChannel)
-    if not ok:
+    return bool(ok)
+
+
+def spec_accepts(cirq, cg, proto, op):
+    """Accept/reject decision read off the DeviceSpecification alone (written from the documentation of the fields)."""
+    from cirq_google.api import v2
+    gate = op.gate
+    if not spec_gate_ok(cirq, cg, {g.WhichOneof('gate') for g in proto.valid_gates}, op):
         return False
     ids = ['%d_%d' % (q.row, q.col) for q in op.qubits]          # the documented id of a grid qubit
     if any(i not in proto.valid_qubits for i in ids):
@@ -1653,6 +1691,410 @@ def devices_stream(ctx, cirq, cg, n):
                               dict(rp, op=repr(op)))
 
 
+# ------------------------------------------------------------------ device specifications as they arrive (written by hand)
+ORD_UNSPEC, ORD_SYM, ORD_ASYM, ORD_SUBSET = 0, 1, 2, 3
+ORD_COQ = {ORD_UNSPEC: 'Unspecified', ORD_SYM: 'Symmetric', ORD_ASYM: 'Asymmetric', ORD_SUBSET: 'SubsetPermutation'}
+ORD_NAME = {ORD_UNSPEC: 'UNSPECIFIED', ORD_SYM: 'SYMMETRIC', ORD_ASYM: 'ASYMMETRIC', ORD_SUBSET: 'SUBSET_PERMUTATION'}
+SPEC_FIXED_GATES = [['cz', 26000], ['phased_xz', 25000], ['meas', 4000000], ['virtual_zpow', 0], ['wait', 0]]
+
+
+def gid(q):
+    return '%d_%d' % (q[0], q[1])
+
+
+def build_device_spec(v2, data):
+    """data: dict(qubits=[id], targets=[[name, ordering, [[id, ...], ...]], ...], gates=[[name, picos], ...], attributes={id: {name: value}})."""
+    from cirq_google.devices import grid_device as gd
+    spec = v2.device_pb2.DeviceSpecification()
+    spec.valid_qubits.extend(data['qubits'])
+    for name, o, targets in data['targets']:
+        ts = spec.valid_targets.add()
+        ts.name = name
+        ts.target_ordering = o
+        for t in targets:
+            ts.targets.add().ids.extend(t)
+    for name, picos in data['gates']:
+        g = spec.valid_gates.add()
+        getattr(g, name).SetInParent()
+        g.gate_duration_picos = picos
+    for q, attrs in data.get('attributes', {}).items():
+        for nm_, val in attrs.items():
+            gd._qubit_attribute_value_to_proto(spec.qubit_attributes[q].attributes[nm_], val)
+    return spec
+
+
+def device_spec_defect(data):
+    """Why the specification does not describe a device (device.proto: ids '<int>_<int>', targets over valid_qubits, the ids of a
+    symmetric target are distinct, ASYMMETRIC is not in use), or None."""
+    import re
+    seen = set()
+    for i in data['qubits']:
+        if i in seen:
+            return f'valid_qubits lists {i!r} twice'
+        if not re.fullmatch(r'[0-9]+_[0-9]+', i):
+            return f'the id {i!r} is not of the form <int>_<int>'
+        seen.add(i)
+    for name, o, targets in data['targets']:
+        for t in targets:
+            for i in t:
+                if i not in seen:
+                    return f'target set {name!r} uses the id {i!r}, which is not among valid_qubits'
+            if o == ORD_SYM and len(set(t)) < len(t):
+                return f'SYMMETRIC target set {name!r} repeats an id inside the target {t}'
+        if o == ORD_ASYM:
+            return f'target set {name!r} is ASYMMETRIC'
+    for q in data.get('attributes', {}):
+        if q not in seen:
+            return f'qubit_attributes names {q!r}, which is not among valid_qubits'
+    return None
+
+
+def device_spec_meaning(cirq, proto):
+    """What a DeviceSpecification says (device.proto): the qubits, the couplings (two-id targets of SYMMETRIC target sets, in
+    either order; target sets of any other ordering are not couplings), the gates with their durations, the qubit attributes."""
+    from cirq_google.api import v2
+
+    def qb(i):
+        r, c = i.split('_')
+        return cirq.GridQubit(int(r), int(c))
+    qubits = frozenset(qb(i) for i in proto.valid_qubits)
+    couplings = frozenset(frozenset(qb(i) for i in t.ids) for ts in proto.valid_targets if ts.target_ordering == v2.device_pb2.TargetSet.SYMMETRIC
+                          for t in ts.targets if len(t.ids) == 2)
+    gates = {g.WhichOneof('gate'): g.gate_duration_picos for g in proto.valid_gates}
+    attrs = {qb(q): {k: getattr(v, v.WhichOneof('val')) if v.WhichOneof('val') else None for k, v in a.attributes.items()} for q, a in proto.qubit_attributes.items()}
+    return qubits, couplings, gates, attrs
+
+
+def pairs_text(ps):
+    return str(sorted(tuple(sorted((q.row, q.col) for q in p)) for p in ps))
+
+
+def device_spec_queries(cirq, cg, rng, qubits, names):
+    """Operations to put before validate_operation: every pair of device qubits in both orders under the two-qubit gates of the
+    specification (and under one that is not in it), single-qubit gates, measurement / wait on pairs and triples, qubits off
+    the device, and a wait on the coupler of a pair."""
+    from cirq_google.ops import PhysicalZTag, FSimViaModelTag, TwoPulseFSimTag
+    G = cirq.GridQubit
+    qs = sorted(qubits)
+    r0, c0 = min(q.row for q in qs), min(q.col for q in qs)
+    off = [q for q in [G(r0 + r, c0 + c) for r in range(4) for c in range(4)] if q not in qubits][:3]
+    rep2 = dict(cz=lambda a, b: cirq.CZ(a, b), syc=lambda a, b: cg.SYC(a, b), sqrt_iswap=lambda a, b: cirq.SQRT_ISWAP(a, b),
+                sqrt_iswap_inv=lambda a, b: cirq.SQRT_ISWAP_INV(a, b), cz_pow_gate=lambda a, b: (cirq.CZ ** 0.5)(a, b),
+                fsim_via_model=lambda a, b: cirq.FSimGate(0.3, 0.4).on(a, b).with_tags(FSimViaModelTag()),
+                two_pulse_fsim=lambda a, b: cirq.FSimGate(0.3, 0.4).on(a, b).with_tags(TwoPulseFSimTag()),
+                internal_gate=lambda a, b: cg.InternalGate('g', 'm', 2).on(a, b))
+    inside = [rep2[n] for n in rep2 if n in names]
+    rng.shuffle(inside)
+    makers = inside[:2] + [rng.choice([rep2[n] for n in rep2 if n not in names] + [lambda a, b: cirq.ISWAP(a, b), lambda a, b: cirq.CNOT(a, b)])]
+    ops = []
+    for i, a in enumerate(qs):
+        for b in qs[i + 1:]:
+            for k, mk in enumerate(makers):
+                if k < len(makers) - 1 or rng.random() < 0.25:
+                    ops += [mk(a, b), mk(b, a)]
+    for a in qs[:3]:
+        for b in off[:2]:
+            ops.append(makers[0](*rng.sample([a, b], 2)))
+    ones = [cirq.X, cirq.Y ** 0.3, cirq.Z ** 0.2, cirq.H, cirq.I, cirq.ResetChannel(), cirq.WaitGate(cirq.Duration(nanos=5)), cg.InternalGate('g', 'm', 1),
+            cirq.PhasedXZGate(x_exponent=0.1, z_exponent=0.2, axis_phase_exponent=0.3)]
+    for q in qs + off:
+        ops.append(rng.choice(ones).on(q))
+        ops.append(cirq.Z(q).with_tags(PhysicalZTag()) if rng.random() < 0.3 else rng.choice(ones).on(q))
+    pairs = [(a, b) for i, a in enumerate(qs) for b in qs[i + 1:]]
+    some = pairs if len(pairs) <= 12 else rng.sample(pairs, 12)
+    for a, b in some:
+        ops.append(cirq.measure(*rng.sample([a, b], 2), key='m'))
+        ops.append(cirq.WaitGate(cirq.Duration(nanos=5), num_qubits=2).on(a, b))
+        ops.append(cirq.WaitGate(cirq.Duration(nanos=5)).on(cg.Coupler(a, b)))
+    if len(qs) >= 3:
+        for _ in range(3):
+            t = rng.sample(qs, 3)
+            ops += [cirq.measure(*t, key='m'), cirq.WaitGate(cirq.Duration(nanos=5), num_qubits=3).on(*t), cg.InternalGate('g', 'm', 3).on(*t)]
+        ops.append(cirq.measure(*qs, key='all'))
+    if off:
+        ops.append(cirq.measure(qs[0], off[0], key='m'))
+        ops.append(cirq.WaitGate(cirq.Duration(nanos=5)).on(cg.Coupler(qs[0], off[0])))
+    return ops
+
+
+def device_decision(fn, arg):
+    try:
+        fn(arg)
+        return True
+    except ValueError:
+        return False
+    except Exception as e:               # any other exception is neither an acceptance nor the documented refusal
+        return 'raised ' + type(e).__name__
+
+
+def judge_device_spec(ctx, cirq, cg, v2, data, rng, extra_ops=()):
+    """Reads the specification with GridDevice.from_proto and judges the device object against what the specification says.
+    Returns (problems, row): problems = [(signature, what, extra replay fields)], row = what the model is compared with."""
+    proto = build_device_spec(v2, data)
+    defect = device_spec_defect(data)
+    problems = []
+    shown = dict(qubits=data['qubits'], targets=[[n, ORD_NAME[o], t] for n, o, t in data['targets']], gates=[g for g, _ in data['gates']])
+    row = dict(device=None, out_targets=[], out_qubits=[], decisions=[])
+    try:
+        dev = cg.GridDevice.from_proto(proto)
+    except ValueError as e:
+        ctx.count('device_spec:refused', data, defect is not None, sample=dict(spec=shown, refused=str(e)[:120], defect=defect))
+        if defect is None:
+            problems.append(('device_spec:refused', f'GridDevice.from_proto refuses a specification that describes a device ({str(e)[:150]}): {shown}', {}))
+        return problems, row
+    if defect is not None:
+        ctx.count('device_spec:refused', data, True)
+        problems.append(('device_spec:accepted-invalid', f'GridDevice.from_proto accepts a specification that describes no device ({defect}): {shown}', {}))
+        return problems, None
+    qubits, couplings, gates, attrs = device_spec_meaning(cirq, proto)
+    md = dev.metadata
+    n_other2 = sum(1 for _, o, ts in data['targets'] if o != ORD_SYM for t in ts if len(t) == 2)
+    ctx.count('device_spec:read', data, len(couplings) >= 1 or n_other2 >= 1, sample=dict(spec=shown, couplings=pairs_text(couplings)))
+    row['device'] = (sorted((q.row, q.col) for q in md.qubit_set), sorted(tuple(sorted((q.row, q.col) for q in p)) for p in md.qubit_pairs))
+    if frozenset(md.qubit_set) != qubits:
+        problems.append(('device_spec:qubits', f'from_proto(spec).metadata.qubit_set = {sorted(md.qubit_set)}, the specification lists {sorted(qubits)}: {shown}', {}))
+    if frozenset(md.qubit_pairs) != couplings:
+        problems.append(('device_spec:pairs', f'from_proto(spec).metadata.qubit_pairs = {pairs_text(md.qubit_pairs)}, but the couplings the specification describes '
+                         f'(two-id targets of its SYMMETRIC target sets) are {pairs_text(couplings)}: extra {pairs_text(frozenset(md.qubit_pairs) - couplings)}, '
+                         f'missing {pairs_text(couplings - frozenset(md.qubit_pairs))}; spec = {shown}', {}))
+    else:
+        coupled_qubits = frozenset(q for p in couplings for q in p)
+        edges = frozenset(frozenset(e) for e in md.nx_graph.edges)
+        if frozenset(md.isolated_qubits) != qubits - coupled_qubits or edges != couplings:
+            problems.append(('device_spec:graph', f'metadata.isolated_qubits = {sorted(md.isolated_qubits)} / nx_graph edges {pairs_text(edges)} do not follow from the couplings '
+                             f'{pairs_text(couplings)} of the specification {shown}', {}))
+    if dict(dev.qubit_attributes) != attrs:
+        problems.append(('device_spec:attributes', f'from_proto(spec).qubit_attributes = {dict(dev.qubit_attributes)}, the specification says {attrs}: {shown}', {}))
+    # accept / reject decisions against the specification
+    names = set(gates)
+    gate_ok = {}
+
+    def says(op):
+        k = (repr(op.gate), tuple(sorted(type(t).__name__ for t in op.tags)))
+        if k not in gate_ok:
+            gate_ok[k] = spec_gate_ok(cirq, cg, names, op)
+        if not gate_ok[k]:
+            return False
+        for q in op.qubits:
+            if isinstance(q, cg.Coupler):        # the coupler of a pair exists where the pair is a coupling
+                if any(x not in qubits for x in q.qubits) or frozenset(q.qubits) not in couplings:
+                    return False
+            elif q not in qubits:
+                return False
+        if len(op.qubits) == 2 and not isinstance(op.gate, (cirq.MeasurementGate, cirq.WaitGate)):
+            return frozenset(op.qubits) in couplings
+        return True
+    good, bad = [], []
+    for op in list(extra_ops) + device_spec_queries(cirq, cg, rng, qubits, names):
+        want, got = says(op), device_decision(dev.validate_operation, op)
+        two = len(op.qubits) == 2 and all(isinstance(q, cirq.GridQubit) for q in op.qubits)
+        ctx.count('device_spec:validate', [data, repr(op)], got is True or (two and want != (frozenset(op.qubits) in couplings)))
+        (good if want else bad).append(op)
+        k = (repr(op.gate), tuple(sorted(type(t).__name__ for t in op.tags)))
+        if gate_ok[k] and all(isinstance(q, cirq.GridQubit) for q in op.qubits) and isinstance(got, bool):
+            row['decisions'].append((isinstance(op.gate, (cirq.MeasurementGate, cirq.WaitGate)), [(q.row, q.col) for q in op.qubits], got))
+        if got is not want:
+            reason = ''
+            if two and gate_ok[k] and all(q in qubits for q in op.qubits) and not isinstance(op.gate, (cirq.MeasurementGate, cirq.WaitGate)):
+                reason = (' (the pair is a coupling of the specification)' if frozenset(op.qubits) in couplings else
+                          ' (the two qubits are not coupled: no SYMMETRIC target set of the specification lists the pair)')
+            problems.append(('device_spec:validate', f'validate_operation({op!r}) {"accepts" if got is True else "rejects" if got is False else got}, the specification says '
+                             f'{"accept" if want else "reject"}{reason}; couplings {pairs_text(couplings)}; spec = {shown}', dict(op=repr(op))))
+    # circuits: accepted exactly when every operation is
+    trials = []
+    if good:
+        trials.append((cirq.Circuit(rng.sample(good, min(8, len(good)))), True))
+    for b in (rng.sample(bad, min(4, len(bad))) if bad else []):
+        ops_ = rng.sample(good, min(5, len(good)))
+        ops_.insert(rng.randint(0, len(ops_)), b)
+        trials.append((cirq.Circuit(ops_), False))
+        trials.append((cirq.Moment([b]), False))
+    for c, want in trials:
+        fn = dev.validate_moment if isinstance(c, cirq.Moment) else dev.validate_circuit
+        got = device_decision(fn, c)
+        ctx.count('device_spec:validate_circuit', [data, repr(c)], not want)
+        if got is not want:
+            culprit = [o for o in (c.operations if isinstance(c, cirq.Moment) else c.all_operations()) if not says(o)]
+            problems.append(('device_spec:validate_circuit', f'{fn.__name__} {"accepts" if got is True else "rejects" if got is False else got} {c!r}; by the specification '
+                             + (f'the operation {culprit[0]!r} is not valid (couplings {pairs_text(couplings)})' if culprit else 'every operation is valid') + f'; spec = {shown}',
+                             dict(circuit=repr(c))))
+    # writing the device out again: the same device described
+    try:
+        out = dev.to_proto()
+    except ValueError as e:
+        problems.append(('device_spec:to_proto', f'to_proto() of the device read from {shown} raises {str(e)[:150]}', {}))
+        return problems, row
+    q2, c2, g2, a2 = device_spec_meaning(cirq, out)
+    row['out_targets'] = [(ts.target_ordering, [[tuple(int(x) for x in i.split('_')) for i in t.ids] for t in ts.targets]) for ts in out.valid_targets]
+    row['out_qubits'] = sorted(tuple(int(x) for x in i.split('_')) for i in out.valid_qubits)
+    ctx.count('device_spec:to_proto', data, len(couplings) >= 1 or n_other2 >= 1)
+    if (q2, c2) != (qubits, couplings) or len(out.valid_qubits) != len(qubits):
+        problems.append(('device_spec:to_proto', f'from_proto(spec).to_proto() describes the qubits {sorted(q2)} and couplings {pairs_text(c2)}; the specification it was read from '
+                         f'describes {sorted(qubits)} and {pairs_text(couplings)} (couplings the specification did not have: {pairs_text(c2 - couplings)}, lost: {pairs_text(couplings - c2)}); spec = {shown}', {}))
+    if g2 != gates:
+        problems.append(('device_spec:gates', f'from_proto(spec).to_proto() lists the gates / durations {g2}; the specification has {gates}', {}))
+    if a2 != attrs:
+        problems.append(('device_spec:attributes', f'from_proto(spec).to_proto() has the qubit attributes {a2}; the specification has {attrs}', {}))
+    back = cg.GridDevice.from_proto(out)
+    if back != dev or back.metadata.qubit_pairs != md.qubit_pairs:
+        problems.append(('device_spec:roundtrip', f'GridDevice.from_proto(d.to_proto()) != d for d = from_proto({shown})', {}))
+    return problems, row
+
+
+def device_spec_literal(data):
+    def q(i):
+        r, c = i.split('_')
+        return f'({coq.zlit(int(r))}, {coq.zlit(int(c))})'
+    tss = '; '.join('{| ts_ordering := %s; ts_targets := [%s] |}' % (ORD_COQ[o], '; '.join('[' + '; '.join(q(i) for i in t) + ']' for t in ts)) for _, o, ts in data['targets'])
+    return '{| valid_qubits := [%s]; valid_targets := [%s] |}' % ('; '.join(q(i) for i in data['qubits']), tss)
+
+
+def fixed_device_specs():
+    """The same for every seed: target sets of every ordering x targets of one, two, three and all ids, next to SYMMETRIC pair
+    sets or alone, on a 2x3 grid and on a two-qubit device; pair sets in both id orders, repeated, split over sets; specifications
+    that describe no device."""
+    out = []
+    for r0, c0 in ((0, 0), (3, 5)):
+        grid = [(r0 + r, c0 + c) for r in range(2) for c in range(3)]
+        ids = [gid(q) for q in grid]
+        rows = [[gid((r0 + r, c0 + c)), gid((r0 + r, c0 + c + 1))] for r in range(2) for c in range(2)]
+        cols = [[gid((r0, c0 + c)), gid((r0 + 1, c0 + c))] for c in range(3)]
+        far = [[ids[0], ids[4]], [ids[5], ids[0]], [ids[2], ids[3]]]             # qubits that are not neighbours
+        by_size = {1: [[i] for i in ids], 2: far + [cols[1]], 3: [ids[:3], [ids[5], ids[1], ids[3]]], 'all': [ids]}
+        for o, nm in ((ORD_SUBSET, 'meas_targets'), (ORD_UNSPEC, 'readout_groups')):
+            for size, targets in by_size.items():
+                out.append(dict(qubits=ids, targets=[[nm, o, targets]], gates=SPEC_FIXED_GATES))
+                out.append(dict(qubits=ids, targets=[['2_qubit_targets', ORD_SYM, rows], [nm, o, targets]], gates=SPEC_FIXED_GATES))
+                out.append(dict(qubits=ids[::-1], targets=[[nm, o, targets], ['2_qubit_targets', ORD_SYM, cols]], gates=SPEC_FIXED_GATES))
+            two = [ids[0], ids[5]]
+            out.append(dict(qubits=two, targets=[[nm, o, [two]]], gates=SPEC_FIXED_GATES))
+            out.append(dict(qubits=two, targets=[[nm, o, [two[::-1]]], ['2_qubit_targets', ORD_SYM, []]], gates=SPEC_FIXED_GATES))
+            out.append(dict(qubits=ids, targets=[['2_qubit_targets', ORD_SYM, rows], [nm, o, [rows[0], rows[1][::-1], far[0]]]], gates=SPEC_FIXED_GATES))   # repeats couplings, adds none
+            out.append(dict(qubits=ids, targets=[[nm, o, [[ids[0], ids[0]], [ids[1], ids[2], ids[1]]]]], gates=SPEC_FIXED_GATES))
+        out.append(dict(qubits=ids, targets=[['2_qubit_targets', ORD_SYM, rows + cols]], gates=SPEC_FIXED_GATES))
+        out.append(dict(qubits=ids, targets=[['2_qubit_targets', ORD_SYM, [p[::-1] for p in rows] + far]], gates=SPEC_FIXED_GATES))
+        out.append(dict(qubits=ids, targets=[['rows', ORD_SYM, rows + [rows[0][::-1], rows[1]]], ['cols', ORD_SYM, cols[::-1]], ['', ORD_SYM, []]], gates=SPEC_FIXED_GATES))
+        out.append(dict(qubits=ids, targets=[['2_qubit_targets', ORD_SYM, cols], ['triples', ORD_SYM, [ids[:3], [ids[4]]]]], gates=SPEC_FIXED_GATES))
+        out.append(dict(qubits=ids, targets=[], gates=SPEC_FIXED_GATES))
+        out.append(dict(qubits=ids[:1], targets=[['meas_targets', ORD_SUBSET, [ids[:1]]]], gates=SPEC_FIXED_GATES))
+        # no device
+        out.append(dict(qubits=ids, targets=[['2_qubit_targets', ORD_ASYM, rows]], gates=SPEC_FIXED_GATES))
+        out.append(dict(qubits=ids, targets=[['2_qubit_targets', ORD_SYM, rows], ['directed', ORD_ASYM, []]], gates=SPEC_FIXED_GATES))
+        out.append(dict(qubits=ids[:4], targets=[['2_qubit_targets', ORD_SYM, [[ids[0], ids[5]]]]], gates=SPEC_FIXED_GATES))
+        out.append(dict(qubits=ids[:4], targets=[['meas_targets', ORD_SUBSET, [[ids[0], ids[5]]]]], gates=SPEC_FIXED_GATES))
+        out.append(dict(qubits=ids[:4], targets=[['readout_groups', ORD_UNSPEC, [[ids[4]]]]], gates=SPEC_FIXED_GATES))
+        out.append(dict(qubits=ids, targets=[['2_qubit_targets', ORD_SYM, [[ids[0], ids[0]]]]], gates=SPEC_FIXED_GATES))
+        out.append(dict(qubits=ids, targets=[['triples', ORD_SYM, [[ids[0], ids[1], ids[0]]]]], gates=SPEC_FIXED_GATES))
+        out.append(dict(qubits=ids + ids[2:3], targets=[], gates=SPEC_FIXED_GATES))
+    out.append(dict(qubits=['0_0', '-1_0'], targets=[], gates=SPEC_FIXED_GATES))
+    out.append(dict(qubits=['0_0', 'q0_1'], targets=[], gates=SPEC_FIXED_GATES))
+    out.append(dict(qubits=['0_0', '3'], targets=[], gates=SPEC_FIXED_GATES))
+    out.append(dict(qubits=['0_0', '0_1'], targets=[], gates=SPEC_FIXED_GATES, attributes={'0_2': {'freq': 5.1}}))
+    return out
+
+
+def gen_device_spec(rng):
+    r0, c0 = rng.choice([(0, 0), (0, 0), (2, 1), (7, 12)])
+    grid = [(r0 + r, c0 + c) for r in range(3) for c in range(3)]
+    qs = [gid(q) for q in rng.sample(grid, rng.choice([1, 2, 2, 3, 4, 6, 9]))]
+    targets = []
+    for _ in range(rng.choice([0, 1, 2, 2, 3, 4])):
+        o = rng.choice([ORD_SYM, ORD_SYM, ORD_SUBSET, ORD_SUBSET, ORD_UNSPEC])
+        name = rng.choice(['2_qubit_targets', 'meas_targets', 'rows', 'readout_groups', '', 'g'])
+        ts = []
+        for _ in range(rng.randint(0, 5)):
+            size = min(len(qs), rng.choice([1, 2, 2, 2, 3, len(qs)]))
+            t = rng.sample(qs, size)
+            if o != ORD_SYM and rng.random() < 0.1:
+                t.append(t[0])
+            ts.append(t)
+        targets.append([name, o, ts])
+    gates = [[g, rng.choice([0, 1000, 25000, 12])] for g in rng.sample(GATE_NAMES, rng.randint(0, 8))]
+    data = dict(qubits=qs, targets=targets, gates=gates)
+    if rng.random() < 0.3:
+        data['attributes'] = {q: dict(rng.sample([('freq', 5.1), ('idx', 3), ('ok', True), ('label', 'x')], rng.randint(1, 3))) for q in rng.sample(qs, rng.randint(1, len(qs)))}
+    if rng.random() < 0.15:                   # something that makes it describe no device
+        k = rng.choice(['asym', 'unknown', 'repeat', 'dup', 'form'])
+        other = gid((r0 + 5, c0 + 5))
+        if k == 'asym':
+            targets.insert(rng.randint(0, len(targets)), ['d', ORD_ASYM, [rng.sample(qs, min(2, len(qs)))]])
+        elif k == 'unknown':
+            targets.insert(rng.randint(0, len(targets)), ['u', rng.choice([ORD_SYM, ORD_SUBSET, ORD_UNSPEC]), [[rng.choice(qs), other]]])
+        elif k == 'repeat':
+            q = rng.choice(qs)
+            targets.append(['r', ORD_SYM, [rng.choice([[q, q], [q, rng.choice(qs), q]])]])
+        elif k == 'dup':
+            qs.insert(rng.randint(0, len(qs)), rng.choice(qs))
+        else:
+            qs.append(rng.choice(['-1_2', 'q1_2', '7', 'a_b', '1_2_3', '']))
+    return data
+
+
+def empty_valid_qubits_case(ctx, cirq, cg, v2):
+    """device.proto on valid_qubits: "If empty, all qubit values are allowed (e.g. in a simulator)".  A GridDevice holds a finite
+    qubit set, so either the specification is refused or the device accepts the gates of the specification on any qubit."""
+    data = dict(qubits=[], targets=[], gates=SPEC_FIXED_GATES)
+    try:
+        dev = cg.GridDevice.from_proto(build_device_spec(v2, data))
+    except ValueError:
+        ctx.count('device_spec:empty', 'empty', True)
+        return True
+    ops = [cirq.X(cirq.GridQubit(0, 0)), cirq.measure(cirq.GridQubit(0, 0), cirq.GridQubit(5, 7), key='m')]
+    dec = [device_decision(dev.validate_operation, op) for op in ops]
+    ctx.count('device_spec:empty', 'empty', True, sample=dict(spec=data, ops=[repr(o) for o in ops], accepted=dec))
+    if all(d is True for d in dec):
+        return True
+    return (f'a DeviceSpecification with empty valid_qubits ("If empty, all qubit values are allowed", device.proto) and the gates {[g for g, _ in data["gates"]]} is read without '
+            f'complaint into a device with qubit_set {set(dev.metadata.qubit_set)} on which validate_operation gives {dec} for {ops}; to_proto() writes valid_qubits = '
+            f'{list(dev.to_proto().valid_qubits)} again, so the device object validates nothing while its specification allows every qubit')
+
+
+def device_specs_stream(ctx, cirq, cg, v2, n):
+    """DeviceSpecification messages written directly (as the service sends them), read with GridDevice.from_proto: the device
+    object against the meaning of the specification (Python oracle) and against Codec/DeviceSpec.v (vm_compute)."""
+    import re
+    rng = ctx.rng
+    cases = fixed_device_specs() + [gen_device_spec(rng) for _ in range(n)]
+    rows = []
+    for data in cases:
+        data = dict(data, kind='device_spec')
+        problems, row = judge_device_spec(ctx, cirq, cg, v2, data, rng)
+        for sig, what, extra in problems:
+            ctx.violation(sig, what, dict(data, **extra))
+        # the model knows qubits and targets: ids it can read, and no refusal that is about the attributes
+        if (row is not None and all(re.fullmatch(r'-?[0-9]+_-?[0-9]+', i) for i in data['qubits'] + [i for _, _, ts in data['targets'] for t in ts for i in t])
+                and all(q in data['qubits'] for q in data.get('attributes', {}))):
+            rows.append((data, row))
+
+    ok_empty = empty_valid_qubits_case(ctx, cirq, cg, v2)
+    if ok_empty is not True:
+        ctx.violation('device_spec:empty-valid-qubits', ok_empty, dict(kind='device_spec_empty'))
+
+    def ql(qs):
+        return '[' + '; '.join(f'({coq.zlit(r)}, {coq.zlit(c)})' for r, c in qs) + ']'
+    for shard in range(0, len(rows), 100):
+        part = rows[shard:shard + 100]
+        text = 'From Coq Require Import ZArith List Bool.\nFrom VF Require Import Codec.DeviceSpec Base.Harness.\nImport ListNotations.\nOpen Scope Z_scope.\n'
+        text += 'Definition cases : list spec_case := [\n'
+        lits = []
+        for data, row in part:
+            dev = 'None' if row['device'] is None else ('(Some {| d_qubits := %s; d_pairs := [%s] |})' % (
+                ql(row['device'][0]), '; '.join(f'(({coq.zlit(a[0])}, {coq.zlit(a[1])}), ({coq.zlit(b[0])}, {coq.zlit(b[1])}))' for a, b in row['device'][1])))
+            outs = '; '.join('{| ts_ordering := %s; ts_targets := [%s] |}' % (ORD_COQ[o], '; '.join(ql(t) for t in ts)) for o, ts in row['out_targets'])
+            decs = '; '.join(f'({"true" if v else "false"}, {ql(qs)}, {"true" if d else "false"})' for v, qs, d in row['decisions'])
+            lits.append('{| c_spec := %s; c_device := %s; c_out_targets := [%s]; c_out_qubits := %s; c_decisions := [%s] |}' % (
+                device_spec_literal(data), dev, outs, ql(row['out_qubits']), decs))
+        text += ';\n'.join(lits) + '].\n'
+        text += 'Eval vm_compute in failing case_device_ok cases.\nEval vm_compute in failing case_to_proto_ok cases.\nEval vm_compute in failing case_validate_ok cases.\n'
+        vals = coq.parse_evals(coq.coq_eval(f'c16_device_specs_{ctx.seed}_{shard}', text))
+        assert len(vals) == 3, vals
+        for which, val in zip(('from_proto', 'to_proto', 'validate_operation'), vals):
+            for idx in coq.parse_nat_list(val):
+                data, row = part[idx]
+                ctx.mark_broken('correspondence:device_spec:' + which, f'model and implementation differ on the specification {dict(qubits=data["qubits"], targets=data["targets"])}: '
+                                f'implementation device {row["device"]}, to_proto targets {row["out_targets"]}')
+
+
 def run(ctx):
     mods = env.import_cirq(('cirq_google',))
     cirq, cg = mods['cirq'], mods['cirq_google']
@@ -1663,7 +2105,12 @@ def run(ctx):
                 'coordinate range for every seed). qubit ids: every kind of qubit over coordinates -12..12 and far from zero, then '
                 'strings near valid ids. sweeps: generated Points / Linspace / ListSweep / FiniteRandomVariable under Product / Zip / '
                 'ZipLongest / Concat with DeviceParameter or Metadata, values plain or carrying units of mixed scale (a fixed grid of '
-                'unit pairs x both precisions x run context for every seed)')
+                'unit pairs x both precisions x run context for every seed). device specifications: devices built from device information and '
+                'written out, and DeviceSpecification messages written directly: 1..9 qubits of a 3x3 grid, 0..4 target sets of ordering '
+                'SYMMETRIC / SUBSET_PERMUTATION / UNSPECIFIED (ASYMMETRIC and other defects: must be refused) with targets of one, two, '
+                'three or all ids, any gates and durations, qubit attributes; a fixed grid (ordering x target size x with / without pair sets, '
+                'two-qubit devices, pair sets reversed / repeated / split) for every seed; every pair of device qubits in both orders goes '
+                'before validate_operation; non-trivial = the specification has a coupling or a two-id target outside SYMMETRIC sets')
     ctx.assumptions += ['vf/checks/c16.py adapters calling cirq_google and canonicalising outputs',
                         'protobuf and numpy are trusted', 'leaf identifiers are assigned by Python equality/hash']
     ctx.set_obligations(coq.compile_props('C16'))
@@ -1692,6 +2139,7 @@ def streams(ctx, cirq, cg, v2, q):
     out.append(('unit_values', lambda: unit_values_stream(ctx, cirq, cg, v2, 60 if q else 400)))
     out.append(('sweeps', lambda: sweeps_stream(ctx, cirq, cg, v2, 250 if q else 2500)))
     out.append(('devices', lambda: devices_stream(ctx, cirq, cg, 60 if q else 600)))
+    out.append(('device_specs', lambda: device_specs_stream(ctx, cirq, cg, v2, 60 if q else 600)))
     return out
 
 
@@ -1785,5 +2233,16 @@ def replay(ctx, data):
             print('decisions', dec, 'specification', want)
             ok = ok and dec[0] == dec[1] == want
         return ok
+    if k == 'device_spec':
+        import random
+        extra = [eval(data['op'], ns)] if 'op' in data else []
+        problems, _ = judge_device_spec(ctx, cirq, cg, v2, data, random.Random(0), extra_ops=extra)
+        for sig, what, _ in problems:
+            print(sig, '|', what[:600])
+        return not problems
+    if k == 'device_spec_empty':
+        r = empty_valid_qubits_case(ctx, cirq, cg, v2)
+        print(r)
+        return r is True
     print('nothing to replay for kind', k)
     return False
